@@ -249,6 +249,7 @@ class Session:
         if c.closed or c.ended:
             return
         if how == "rst":
+            c.healthy = False
             self.sim.rst(c.fd)
         else:
             self.sim.eof(c.fd)
@@ -660,6 +661,8 @@ class Session:
                 self.sig("final", "owner-gone")
             if p.reply is not None and getattr(p, "race", False):
                 ok = True
+            if p.conn.ended or p.conn.closing:
+                ok = True    # the caller itself is going away: its requests are being dropped
             if self.faults_active and p.owner is not None and not p.owner.healthy:
                 ok = True
             if self.alloc_faults:
